@@ -12,8 +12,8 @@
  *   g_q_walk is the node whose link is expected next; the list's append call-back checks the appended link
  *   against the step g_q_walk -> g_q_walk->parent (direction == side of the child, sibling hash / meta-data,
  *   level correction == parent.level - child.level - 1), then moves the cursor to the parent.
- *   The link appended at the WITNESS index g_q_w (chosen before the call) is recorded in g_qw together with the
- *   facts of the tree step it has to describe; contracts state the property on that record.               */
+ *   The link appended at the WITNESS index (g_q_togo appends from now, chosen before the call) is recorded in
+ *   g_qw together with the facts of the tree step it has to describe; contracts state the property on that record. */
 #ifndef ENV_Q_CHAIN_ENV_H
 #define ENV_Q_CHAIN_ENV_H
 #include <stdlib.h>
@@ -35,14 +35,20 @@ size_t g_q_n;                                  /* links accepted by the list so 
 KSI_LIST(KSI_HashChainLink) *g_q_list;        /* the list of the chain under construction */
 const KSI_TreeNode *g_q_walk;                  /* ghost cursor: the node whose link is expected next */
 _Bool g_q_walk_root;                           /* the cursor has no parent (all ancestors have their link) */
-size_t g_q_w;                                  /* witness index, chosen before the call */
+size_t g_q_togo;                               /* witness: number of appends still to go before the witness link (chosen before the call;
+                                                  counted DOWN so that no counter comparison can wrap) */
+_Bool g_qw_set;                                /* the witness link has been recorded */
 struct q_witness {
-	/* the link accepted at index g_q_w */
+	/* the link accepted at the witness index */
 	_Bool isLeft; KSI_DataHash *imprint; _Bool hasMd; _Bool hasLegacy; KSI_uint64_t lc;
 	/* the tree step it must describe */
 	const KSI_TreeNode *child; const KSI_TreeNode *parent; _Bool childIsLeft; _Bool childIsRight;
 	KSI_DataHash *sibHash; _Bool sibHasMd; _Bool levelsAscend; long long gap;
 } g_qw;
+
+KSI_AggregationHashChain *g_q_chain_out;          /* out-parameter object of the getAggregationChain harness */
+
+_Bool g_qc_alloc_failed;                          /* some allocation inside a stub returned NULL (C19 visibility) */
 
 static int q_env_fail(void) { return nondet_bool(); }
 
@@ -57,7 +63,7 @@ int KSI_Integer_new(KSI_CTX *ctx, KSI_uint64_t value, KSI_Integer **o) {
 	KSI_Integer *t;
 	if (ctx == NULL || o == NULL) return KSI_INVALID_ARGUMENT;
 	t = malloc(sizeof(*t));
-	if (t == NULL) return KSI_OUT_OF_MEMORY;
+	if (t == NULL) { g_qc_alloc_failed = 1; return KSI_OUT_OF_MEMORY; }
 	t->ref = 1; t->value = value; g_qc_live++;
 	*o = t; return KSI_OK;
 }
@@ -70,7 +76,7 @@ static int q_md_toMetaDataElement(const KSI_MetaData *in, KSI_MetaDataElement **
 	KSI_MetaDataElement *t;
 	if (q_env_fail()) return KSI_INVALID_FORMAT;
 	t = malloc(sizeof(*t));
-	if (t == NULL) return KSI_OUT_OF_MEMORY;
+	if (t == NULL) { g_qc_alloc_failed = 1; return KSI_OUT_OF_MEMORY; }
 	t->ref = 1; t->ctx = NULL; g_qc_live++;
 	*out = t; return KSI_OK;
 }
@@ -80,7 +86,7 @@ int KSI_HashChainLink_new(KSI_CTX *ctx, KSI_HashChainLink **t) {
 	KSI_HashChainLink *l;
 	if (ctx == NULL || t == NULL) return KSI_INVALID_ARGUMENT;
 	l = malloc(sizeof(*l));
-	if (l == NULL) return KSI_OUT_OF_MEMORY;
+	if (l == NULL) { g_qc_alloc_failed = 1; return KSI_OUT_OF_MEMORY; }
 	l->ctx = ctx; l->isLeft = 0; l->levelCorrection = NULL; l->legacyId = NULL; l->metaData = NULL; l->imprint = NULL;
 	g_qc_live++;
 	*t = l; return KSI_OK;
@@ -117,7 +123,9 @@ static int q_ll_append(KSI_LIST(KSI_HashChainLink) *lst, KSI_HashChainLink *o) {
 	__CPROVER_assert(p->level > c->level && (long long)lc == spec_tree_level_correction(p->level, c->level), "link: level correction == parent.level - child.level - 1");
 	__CPROVER_assert(o->levelCorrection == NULL || (o->levelCorrection->ref == 1 && lc > 0), "link: a level correction object is stored only for a gap, the link holds its only reference");
 	__CPROVER_assert(o->metaData == NULL || o->metaData->ref == 2, "link: the meta-data element is shared between the link and the caller's local at append time");
-	if (g_q_n == g_q_w) {
+	if (!g_qw_set && g_q_togo > 0) g_q_togo--;
+	else if (!g_qw_set) {
+		g_qw_set = 1;
 		g_qw.isLeft = (o->isLeft != 0); g_qw.imprint = o->imprint; g_qw.hasMd = (o->metaData != NULL); g_qw.hasLegacy = (o->legacyId != NULL); g_qw.lc = lc;
 		g_qw.child = c; g_qw.parent = p; g_qw.childIsLeft = (p->leftChild == c); g_qw.childIsRight = (p->rightChild == c);
 		g_qw.sibHash = (sib == NULL) ? NULL : sib->hash; g_qw.sibHasMd = (sib != NULL && sib->metaData != NULL);
@@ -133,7 +141,7 @@ int KSI_HashChainLinkList_new(KSI_LIST(KSI_HashChainLink) **list) {
 	KSI_LIST(KSI_HashChainLink) *l;
 	if (list == NULL) return KSI_INVALID_ARGUMENT;
 	l = malloc(sizeof(*l));
-	if (l == NULL) return KSI_OUT_OF_MEMORY;
+	if (l == NULL) { g_qc_alloc_failed = 1; return KSI_OUT_OF_MEMORY; }
 	memset(l, 0, sizeof(*l));
 	l->append = q_ll_append;
 	g_qc_live++; g_q_list = l; g_q_n = 0; g_q_owned = 0; g_q_owned_href = 0;
@@ -155,7 +163,7 @@ int KSI_AggregationHashChain_new(KSI_CTX *ctx, KSI_AggregationHashChain **out) {
 	KSI_AggregationHashChain *t;
 	if (ctx == NULL || out == NULL) return KSI_INVALID_ARGUMENT;
 	t = malloc(sizeof(*t));
-	if (t == NULL) return KSI_OUT_OF_MEMORY;
+	if (t == NULL) { g_qc_alloc_failed = 1; return KSI_OUT_OF_MEMORY; }
 	t->ctx = ctx; t->ref = 1; t->aggregationTime = NULL; t->chainIndex = NULL; t->inputData = NULL; t->inputHash = NULL;
 	t->aggrHashId = NULL; t->chain = NULL; t->outputHash = NULL; t->outputLevel = 0; t->inputLevel = 0;
 	g_qc_live++;
